@@ -1,8 +1,10 @@
 package c01
 
 import (
+	"encoding/json"
 	"fmt"
 	"os"
+	"path/filepath"
 	"strings"
 	"sync"
 	"sync/atomic"
@@ -450,4 +452,26 @@ func TestFixed(t *testing.T) {
 	vh.Fixed(t, prop, "requested-go-error-fails", Case{NTasks: 1, GoErrorFails: true, Batches: []Batch{{[]Req{ctl("START_ACTIVITY")}}, {[]Req{ctl("GO_ERROR")}}, {[]Req{ctl("RESET")}}}}, vh.Confirmed(run))
 	vh.Fixed(t, prop, "failed-start", Case{NTasks: 2, Batches: []Batch{{[]Req{ctl("START_ACTIVITY")}}, {[]Req{ctl("STOP_ACTIVITY")}}}, Outcomes: []string{"taskfail"}}, vh.Confirmed(run))
 	vh.Fixed(t, prop, "hook-fails-then-requests", Case{NTasks: 1, Batches: []Batch{{[]Req{ctl("START_ACTIVITY")}}, {[]Req{ctl("START_ACTIVITY")}}, {[]Req{ctl("GO_ERROR")}}}, Outcomes: []string{"hookfail"}}, vh.Confirmed(run))
+}
+
+// TestSavedDoneToError repeats a saved case (found by the thorough tier): a destroy that first stops the run, and a RESET
+// and a STOP_ACTIVITY queued behind it. The two control requests fail; one of them attempted its GO_ERROR just after the
+// teardown had completed and then forced the destroyed environment from DONE to ERROR (about 1 history in 3500).
+func TestSavedDoneToError(t *testing.T) {
+	defer simworld.Discard()
+	dir := os.Getenv("VERIF_HARNESS_DIR")
+	if dir == "" {
+		dir = "/verif/harness"
+	}
+	b, err := os.ReadFile(filepath.Join(dir, "props/c01/testdata/done_to_error_case.json"))
+	if err != nil {
+		t.Fatal(err)
+	}
+	var c Case
+	if err := json.Unmarshal(b, &c); err != nil {
+		t.Fatal(err)
+	}
+	for i := 0; i < vh.Scale(25, 400); i++ {
+		vh.Fixed(t, prop, fmt.Sprintf("saved-done-to-error-%d", i), c, run) // the verdict (DONE -> ERROR observed) does not depend on timing: no confirmation run
+	}
 }
